@@ -1194,6 +1194,10 @@ public:
     // Assign ghost variables to ref
     ghost_variables_t ref_gvars = get_or_insert_gvars(ref);
 
+    // ref is (re)defined: whatever was known about its old address
+    // (e.g., that it was null) does not hold for the new one
+    m_base_dom -= ref_gvars.get_var();
+
     // initialize ghost variables
     if (ref_gvars.has_offset_and_size()) {
       ref_gvars.get_offset_and_size().init(m_base_dom,
